@@ -247,10 +247,43 @@ func c32_mutateText(r *verifx.Rng, s string) string {
 }
 
 func c32_genBadCidr(r *verifx.Rng) string {
-	if r.Chance(2, 3) {
-		return verifx.Pick(r, c32BadCidrs)
+	s, _ := c32_genBadCidrNear(r)
+	return s
+}
+
+// c32_genBadCidrNear returns a malformed entry and, when it was derived from a real network (a near
+// miss: the mask dropped — a bare address —, the slash replaced, one character off), that network
+// as a "ghost": peers are then also placed inside / just outside it, so that an implementation
+// which wrongly accepts the near miss as some network around that address is exercised there.
+func c32_genBadCidrNear(r *verifx.Rng) (string, *c32Net) {
+	if r.Chance(1, 2) {
+		return verifx.Pick(r, c32BadCidrs), nil
 	}
-	return c32_mutateText(r, c32_fmtNet(r, c32_genNet(r)))
+	n := c32_genNet(r)
+	text := c32_fmtNet(r, n)
+	i := strings.IndexByte(text, '/')
+	var bad string
+	switch r.Intn(4) {
+	case 0: // bare address: no mask at all; the ghost is a network of some other width around it
+		bad = text[:i]
+		if n.base.is4() && n.bits >= 96 {
+			b := verifx.Pick(r, []int{96 + 8, 96 + 16, 96 + 24, 96 + 31, 96 + 32, n.bits})
+			n = c32Net{n.base.maskTop(b), b}
+		} else {
+			b := verifx.Pick(r, []int{16, 32, 32, 48, 64, 64, 96, 104, 120, 128, n.bits})
+			n = c32Net{n.base.maskTop(b), b}
+		}
+	case 1: // another separator instead of the slash
+		bad = text[:i] + verifx.Pick(r, []string{"\\", "|", "%", " /", "/ ", "//", ":"}) + text[i+1:]
+	case 2: // mask beyond the family's width or not a number
+		bad = text[:i+1] + verifx.Pick(r, []string{"129", "200", "-1", "+8", "8.0", "0x10", "", "32/"})
+		if n.base.is4() && n.bits >= 96 && !strings.Contains(text[:i], ":") {
+			bad = text[:i+1] + verifx.Pick(r, []string{"33", "64", "128", "-1", "+8", "", "255.0.0.0"})
+		}
+	default:
+		bad = c32_mutateText(r, text)
+	}
+	return bad, &n
 }
 
 func c32_genRemoteAddr(r *verifx.Rng, a c32Addr) string {
@@ -361,11 +394,16 @@ func genC32Case(r *verifx.Rng) c32Case {
 	default:
 		nEntries = 3 + r.Intn(3)
 	}
-	kind := r.Intn(10) // 0-4 all valid, 5-7 mixed, 8-9 all invalid
+	var ghosts []c32Net // networks that malformed entries were derived from (peers only)
+	kind := r.Intn(10)  // 0-4 all valid, 5-7 mixed, 8-9 all invalid
 	for i := 0; i < nEntries; i++ {
 		bad := kind >= 8 || (kind >= 5 && r.Chance(1, 2))
 		if bad {
-			c.entries = append(c.entries, c32_genBadCidr(r))
+			e, ghost := c32_genBadCidrNear(r)
+			c.entries = append(c.entries, e)
+			if ghost != nil {
+				ghosts = append(ghosts, *ghost)
+			}
 		} else {
 			n := c32_genNet(r)
 			nets = append(nets, n)
@@ -374,6 +412,7 @@ func genC32Case(r *verifx.Rng) c32Case {
 	}
 	// address pool for peers and forwarded values
 	pool := []c32Addr{c32V4(0xC6336407), c32V4(0x0A010203), c32V4(0xC0000205), {0x20010db800000000, 7}, {0, 1}}
+	nets = append(nets, ghosts...) // from here on only used to place peers
 	for _, n := range nets {
 		pool = append(pool, n.inside(r), n.justOutside(r))
 	}
@@ -433,7 +472,11 @@ func c32_genRawList(r *verifx.Rng) (string, []c32Net) {
 	var nets []c32Net
 	for i := 0; i < n; i++ {
 		if r.Chance(1, 5) {
-			items = append(items, c32_genBadCidr(r))
+			e, ghost := c32_genBadCidrNear(r)
+			items = append(items, e)
+			if ghost != nil {
+				nets = append(nets, *ghost)
+			}
 		} else {
 			nt := c32_genNet(r)
 			nets = append(nets, nt)
